@@ -142,7 +142,7 @@ MODELS = [
     (r'^(futures::future::)?err::<', lambda ex, a, c: Opaque('readyfut', ex.err(a[0]))),
     (r'^(futures::future::)?ready::<', lambda ex, a, c: Opaque('readyfut', a[0])),
     (r'<\{async (block|fn body of)[^}]*\} as (futures::)?Future>::poll$|<TryFold<.*> as (futures::)?Future>::poll$'
-     r'|<Pin<Box<dyn (futures::)?Future<.*>>> as (futures::)?Future>::poll$|<futures::future::Ready<.*> as (futures::)?Future>::poll$',
+     r'|^<Pin<Box<dyn (futures::)?Future<.*> as (futures::)?Future>::poll$|<futures::future::Ready<.*> as (futures::)?Future>::poll$',
      m_coroutine_poll),
     (r'^BytesMut::new$', lambda ex, a, c: BytesMut()),
     (r'<BytesMut as BufMut>::put::|BytesMut as bytes::BufMut>::put::', m_bm_put),
